@@ -441,9 +441,15 @@ func drive(id string, p Prop, tier string) int {
 		okc := (v.race && cr.code == 66) || (!v.race && cr.code == 1)
 		raceNote := ""
 		if !okc {
-			if !v.race {
+			if !v.race && !libNondet(a.warnings) {
 				unconfirmed = append(unconfirmed, fmt.Sprintf("class %s (run seed %d, plan %s) failed in an earlier replay but not in the final one: %s", v.rec.Class, v.rec.RunSeed, v.plan.Name, v.rec.Detail))
 				continue
+			}
+			if !v.race {
+				// observed by the worker AND by an earlier replay in a fresh process; the library
+				// under test is not a function of the case (see the instrumenter warnings)
+				cr.out = "VIOLATED property=" + id + " class=" + v.rec.Class + " " + v.rec.Detail + "\n"
+				raceNote = fmt.Sprintf("\n  NOTE: failed in the worker and in an earlier replay of this file but not in the last one - the library under test is not a function of the case (instrumenter warnings: %v)", keys(a.warnings))
 			}
 			// the race was reported by the worker AND by at least one replay; a report is
 			// proof by itself, the final replay just did not hit it again
@@ -854,7 +860,7 @@ func shrinkCmd(id string, p Prop, in, out string, args []string) int {
 // under test (the unchanged tree has none).
 func libNondet(warnings map[string]bool) bool {
 	for w := range warnings {
-		if strings.Contains(w, "sync.Pool") || strings.HasPrefix(w, "randomness") || strings.HasPrefix(w, "clock") {
+		if strings.Contains(w, "sync.Pool") || strings.HasPrefix(w, "randomness") || strings.HasPrefix(w, "clock") || strings.HasPrefix(w, "address used as data") || strings.HasPrefix(w, "runtime.") {
 			return true
 		}
 	}
